@@ -166,6 +166,13 @@ func lex(src, file string, line0 int) (*lexer, error) {
 			for j < len(src) && (unicode.IsLetter(rune(src[j])) || unicode.IsDigit(rune(src[j])) || src[j] == '_' || src[j] == '$') {
 				j++
 			}
+			// name#k selects the k-th declaration of a shadowed local
+			if j+1 < len(src) && src[j] == '#' && unicode.IsDigit(rune(src[j+1])) {
+				j++
+				for j < len(src) && unicode.IsDigit(rune(src[j])) {
+					j++
+				}
+			}
 			lx.toks = append(lx.toks, tok{"id", src[i:j], line})
 			i = j
 		case unicode.IsDigit(rune(c)):
